@@ -8,6 +8,8 @@ recorded as events / mechanism keys and triggers a bounded re-examination of the
 under other arc orders, it is never a verdict by itself.
 """
 
+from vf.common import fresh as _fresh
+
 ID = "C09"
 RULE = ("composite cases: one seeded random network (stratum decides shape: simple / parallel / anti-parallel arcs, negative "
         "costs generated from node potentials so that no negative cycle exists, saturating demands, zero capacities, "
@@ -525,9 +527,9 @@ def _run_net(case, obs):
             inv = {l: i for i, l in enumerate(lab)}
             graph = {}
             for u, v, c, w in arcs:
-                graph.setdefault(lab[u], []).append((lab[v], c, w))
+                graph.setdefault(lab[u], []).append((_fresh(lab[v]), c, w))  # equal-but-distinct label objects
             if max_iter is None:
-                res = call(obs, _flow.min_cost_flow, graph, lab[s], lab[t], d, what="min_cost_flow", budget=budget, hang_cls=HANG)
+                res = call(obs, _flow.min_cost_flow, graph, _fresh(lab[s]), _fresh(lab[t]), d, what="min_cost_flow", budget=budget, hang_cls=HANG)
                 if is_crash(res):
                     obs.outcome("mcf:crash")
                     k1 = c1 = None
